@@ -250,7 +250,8 @@ def checkLabel (lm : LinModel (Ext Rat)) (o : MilpOpts) (r r0 : ImplRes (Ext Rat
   -- the mirror call is evidence only where the clock plays no role (0 ns); for positive limits the two calls may be
   -- hit differently by the clock, so there the signature is "limit set, unlimited answer right, limited answer wrong"
   let mirrorSaysUnfinished := rawStatus == "interrupted" || rawStatus == "feasible"
-  let statusIgnored := limited && baselineRight && (o.limitNs != some 0 || mirrorSaysUnfinished)
+  let clockFree := match o.limitNs with | some n => n == 0 || n ≥ 1000000000 | none => true   -- 0 ns always fires, ≥ 1 s never does
+  let statusIgnored := limited && baselineRight && (!clockFree || mirrorSaysUnfinished)
   let viol (k : String) (d : List Sexp) : Sexp :=
     if statusIgnored then SolveOracle.viol "milp-limit-status-not-read" (.atom k :: .atom rawStatus :: d) else SolveOracle.viol k d
   let cause (k : String) : String := k
